@@ -739,6 +739,9 @@ func runC04case(cs c04case) (o c04obs) {
 		dev.WithholdEmpty = c04expected(cs).probeIndex
 		timeout = 250 * time.Millisecond
 	}
+	if cs.kind == "nosecret" {
+		timeout = 250 * time.Millisecond
+	}
 	if !(c04isScript(cs) || cs.kind == "reject") {
 		// the prompt a device shows after login. With auth bypass nothing reads it at Open: the first
 		// GetPrompt is answered by it and consecutive GetPrompts stay one prompt behind until the first
@@ -1190,6 +1193,9 @@ func c04inDomain(cs c04case) bool {
 		if l.name == cs.start && !c04unamb(m, j) {
 			return false
 		}
+		if l.asks && (!l.auth || cs.secret == "") {
+			return false // the device asks where the client is not prepared to answer
+		}
 	}
 	return c04payloadOK(cs)
 }
@@ -1358,6 +1364,7 @@ func runC04(c *ctx) {
 		"x segmentation classes; random trees to 9 levels with random operation sequences (<=12 ops, unknown levels included); the IOS-like tree with the real overlapping patterns; " +
 		"sibling levels sharing one prompt (2-3 children of one parent, optional authenticated edge) with >=20 hops between the siblings per session; " +
 		"explicit targets: SendConfig(s)/SendConfigsFromFile/SendInteractive with WithPrivilegeLevel(t) for every level t, with 0-3 other operation options and the level option at every position among them; " +
+		"secondary secrets from a boundary-value pool (surrounding / inner blanks and tabs, 300 bytes, non-ASCII, %-verbs, quotes, regex metacharacters, level names, prompt-like text) set through options.WithAuthSecondary, the device comparing byte-exactly; " +
 		"out-of-quantifier streams (payload = transition command, ambiguous interior levels / ambiguous start) compared for information. non-trivial = in-domain session with at least one acquisition of >=1 hop; distinct by case line"
 	if c.replay != "" {
 		cs, ok := c04replay(c.replay)
@@ -1418,6 +1425,12 @@ func runC04(c *ctx) {
 	for i := c.n(150, 1500); i > 0; i-- {
 		cases = append(cases, c04script(c.rng.U64(), i%3, 14+i%8))
 	}
+	for i := c.n(3*len(c04secretPool), 20*len(c04secretPool)); i > 0; i-- {
+		cases = append(cases, c04secret(c.rng.U64(), i))
+	}
+	for i := c.n(6, 40); i > 0; i-- {
+		cases = append(cases, c04nosecret(c.rng.U64()))
+	}
 	for i := c.n(30, 300); i > 0; i-- {
 		cases = append(cases, c04pfault(c.rng.U64(), i))
 	}
@@ -1458,6 +1471,10 @@ func c04replay(line string) (c04case, bool) {
 			return c04case{}, false // needs the step index: six fields
 		}
 		switch f[1] {
+		case "secret":
+			return c04secret(seed, atoi(f[3])), true
+		case "nosecret":
+			return c04nosecret(seed), true
 		case "script":
 			return c04script(seed, atoi(f[3]), atoi(f[4])), true
 		case "pfault":
@@ -1558,7 +1575,7 @@ func c04check(c *ctx, cases []c04case) {
 			// outside the quantifier. The model still claims the "stale" stream (payload that is a
 			// transition command on a proper tree): compare for correspondence; ambiguous prompts
 			// depend on Go's map order and are only counted.
-			if cs.kind == "stale" && o.fatal == "" {
+			if (cs.kind == "stale" || cs.kind == "nosecret") && o.fatal == "" {
 				if implE != f[1] || implM != f[2] || implL != f[3] || c04modesStr(o.caches) != f[7] {
 					res.Fail("correspondence", cs.line, fmt.Sprintf("out-of-domain (stale cache) session: impl errs %s modes %s log [%s] ; model errs %s modes %s log %s", implE, implM, c04pretty(o.log), f[1], f[2], f[3]), "impl-vs-model-stale")
 				} else {
